@@ -517,6 +517,8 @@ class Flow:
         if fv[0] in ("phi", "ifexp") and len(fv) == 4:
             a, b = self._apply(fv[2], args, kws, depth + 1), self._apply(fv[3], args, kws, depth + 1)
             return None if a is None or b is None else (fv[0], fv[1], a, b)
+        if fv[0] == "raise":
+            return fv               # this arm of the selection raised instead of yielding a function: nothing is called on it
         if fv[0] != "lambda":
             return None
         params = fv[1]
@@ -1942,15 +1944,27 @@ def simp(v):
         bound = {x for x in walk(tg) if isinstance(x, tuple) and x and x[0] == "bv"}
         for i_, c_ in enumerate(ifs):
             if c_[0] in ("phi", "ifexp") and len(c_) == 4 and not any(x in bound for x in walk(c_[1])):
-                arm = lambda w: simp(("comp", v[1], v[2], ((tg, it, tuple(ifs[:i_]) + (w,) + tuple(ifs[i_ + 1:])),)))
+                # (an arm that raised -- the selecting helper refused -- builds nothing: it stays the ("raise", ..) leaf)
+                arm = lambda w: w if w[0] == "raise" else simp(("comp", v[1], v[2], ((tg, it, tuple(ifs[:i_]) + (w,) + tuple(ifs[i_ + 1:])),)))
                 return ("phi", c_[1], arm(c_[2]), arm(c_[3]))
     # decorate-sort-undecorate:  [t[k] for t in sorted(T(x) for x in S)]  with T(x) a tuple display whose k-th component is x itself
     # ==  sorted(S, key=lambda x: T(x))   (the same tuples are compared in the same order; both sorts are stable)
     if k == "comp" and v[1] == "list" and len(v[3]) == 1 and not v[3][0][2] and v[3][0][0] is not None:
         tg, it, _ = v[3][0]
-        if it[0] == "call" and it[1] == ("global", "sorted") and len(it[2]) == 1 and not it[3] and it[2][0][0] == "comp" and it[2][0][1] in ("list", "gen") \
-                and len(it[2][0][3]) == 1:
-            inner = it[2][0]
+        # (with sorted(.., key=lambda t: K(t)) the records are compared by K(T(x)): that is the key of the undecorated sort)
+        dkey = None
+        if it[0] == "call" and it[1] == ("global", "sorted") and len(it[2]) == 1 and len(it[3]) == 1 and it[3][0][0] == "key" and it[3][0][1][0] == "lambda" and len(it[3][0][1][1]) == 1:
+            dkey = it[3][0][1]
+        inner = strip_transparent(it[2][0]) if it[0] == "call" and it[1] == ("global", "sorted") and len(it[2]) == 1 and (not it[3] or dkey is not None) else None
+        while inner is not None and inner[0] == "call" and inner[1] in (("global", "list"), ("global", "tuple")) and len(inner[2]) == 1 and not inner[3]:
+            inner = inner[2][0]
+        if inner is not None and inner[0] == "call" and inner[1] == ("global", "zip") and inner[2] and not inner[3] and not any(a[0] == "star" for a in inner[2]):
+            # zip(F(S), S) decorates as well: the tuples (f(x), x) for x in S, when every argument is an unfiltered map over ONE sequence
+            maps = [as_map(a) for a in inner[2]]
+            if all(m is not None and not m[3] for m in maps) and len({m[2] for m in maps}) == 1:
+                zx = ("bv", "_z", next(_fresh))
+                inner = ("comp", "list", ("tuple", tuple(simp(subst(m[1], {m[0]: zx})) for m in maps)), ((zx, maps[0][2], ()),))
+        if inner is not None and inner[0] == "comp" and inner[1] in ("list", "gen") and len(inner[3]) == 1:
             x, src, ifs = inner[3][0]
             T = inner[2]
             if x is not None and x[0] == "bv" and T[0] == "tuple" and T[1] and not any(e[0] == "star" for e in T[1]):
@@ -1965,6 +1979,13 @@ def simp(v):
                         pick = i_ % n_
                 if pick is not None and T[1][pick] == x:
                     seq = src if not ifs else ("comp", "list", x, ((x, src, ifs),))
+                    if dkey is not None:
+                        kb = dkey[2]
+                        if kb[0] == "sub" and kb[1] == dkey[1][0] and kb[2][0] == "const" and type(kb[2][1]) is int and -n_ <= kb[2][1] < n_:
+                            kb = T[1][kb[2][1]]                                   # t[i] of the record is its i-th component
+                        else:
+                            kb = simp(subst(kb, {dkey[1][0]: T}))
+                        return ("call", ("global", "sorted"), (seq,), (("key", ("lambda", (x,), kb)),))
                     return ("call", ("global", "sorted"), (seq,), (("key", ("lambda", (x,), T)),))
     if k == "sub" and v[1][0] == "dict" and v[2][0] == "const" and v[1][1] and all(len(e) == 2 and e[0][0] == "const" for e in v[1][1]):
         # {"a": x, "b": y}["a"] is x (a literal table read back by a literal key)
